@@ -1189,7 +1189,9 @@ def configs(tier):
         for t in _prod(G2N, 2):
             bases.append(('non', t, ['getitem2']))
         # 3-d
-        for t in _star(U, UNI_SMALL, 3):
+        for t in _star(U, UNI_SMALL[:3], 3):
+            bases.append(('uni', t, RP))
+        for t in _prod(UNI_SMALL, 3):
             bases.append(('uni', t, RP))
         for t in _prod(NON_SMALL, 3):
             bases.append(('non', t, RP))
@@ -1315,7 +1317,7 @@ def meta(tier):
                    'nodes_on_bdry': FLAGS, 'coordinate_vectors': VECS, 'limit_offsets': OFFS,
                    'slice_ends': SL_ENDS, 'slice_steps': SL_STEPS,
                    '2d': 'full product (thorough) / one axis full, other from 4 (quick)',
-                   '3d': 'one axis full, others from 4 (thorough) / 4^3 (quick)',
+                   '3d': 'one axis full, others from 3, plus 4^3 (thorough) / 4^3 (quick)',
                    'depth': 2},
         'assumptions': [
             'exact comparison where the reference numbers are dyadic; otherwise 1e-12*max(1,|v|)',
